@@ -77,6 +77,8 @@ struct Peer {
     addr: String,
     /// name used in harness-side events; differs from addr for a second connection from the same address
     label: String,
+    /// keeps answering the requests it got even after it choked the client
+    rude: bool,
     id: [u8; 20],
     stream: Option<tokio::io::ReadHalf<DuplexStream>>,
     out: Option<tokio::sync::mpsc::UnboundedSender<Vec<u8>>>,
@@ -363,6 +365,7 @@ async fn run_scenario(sc: Value, run: std::path::PathBuf, panics: std::sync::Arc
     trace::start();
     net::activate();
     rdest::verif::clear_rate_overrides();
+    rdest::verif::chan::delay_replies(0, 0);
 
     let mut peers: Vec<Peer> = sc["peers"].as_array().unwrap().iter().map(|p| {
         let mut id = [0u8; 20];
@@ -374,7 +377,7 @@ async fn run_scenario(sc: Value, run: std::path::PathBuf, panics: std::sync::Arc
         for x in p["has"].as_array().map(|v| v.clone()).unwrap_or_default() {
             has[x.as_u64().unwrap() as usize] = true;
         }
-        Peer { addr: p["addr"].as_str().unwrap().to_string(), label: p["label"].as_str().unwrap_or(p["addr"].as_str().unwrap()).to_string(), id, stream: None, out: None, inbuf: vec![], closed_seen: false, has,
+        Peer { addr: p["addr"].as_str().unwrap().to_string(), label: p["label"].as_str().unwrap_or(p["addr"].as_str().unwrap()).to_string(), rude: p["rude"].as_bool().unwrap_or(false), id, stream: None, out: None, inbuf: vec![], closed_seen: false, has,
                auto_serve: p["serve"].as_str().unwrap_or("none").to_string(),
                corrupt: p["corrupt"].as_array().map(|v| v.iter().map(|x| x.as_u64().unwrap() as usize).collect()).unwrap_or_default(),
                lifo: p["lifo"].as_bool().unwrap_or(false), we_unchoked_client: false, pending: VecDeque::new(),
@@ -452,7 +455,7 @@ async fn run_scenario(sc: Value, run: std::path::PathBuf, panics: std::sync::Arc
                     let enc = encode_frame(f, &t, &info_hash, &peers[pi].id);
                     emit("Send", format!("\"peer\":\"{}\",\"f\":{}", peers[pi].label, f));
                     if f["k"] == "Unchoke" { peers[pi].we_unchoked_client = true; }
-                    if f["k"] == "Choke" { peers[pi].we_unchoked_client = false; peers[pi].pending.clear(); }
+                    if f["k"] == "Choke" { peers[pi].we_unchoked_client = false; if !peers[pi].rude { peers[pi].pending.clear(); } }
                     bytes.extend_from_slice(&enc);
                 }
                 let cuts: Vec<usize> = step["cuts"].as_array().map(|v| v.iter().map(|x| x.as_u64().unwrap() as usize).collect()).unwrap_or_default();
@@ -493,7 +496,7 @@ async fn run_scenario(sc: Value, run: std::path::PathBuf, panics: std::sync::Arc
                         bytes.extend_from_slice(&encode_frame(f, &t, &info_hash, &peers[pj].id));
                         emit("Send", format!("\"peer\":\"{}\",\"f\":{}", peers[pj].label, f));
                         if f["k"] == "Unchoke" { peers[pj].we_unchoked_client = true; }
-                        if f["k"] == "Choke" { peers[pj].we_unchoked_client = false; peers[pj].pending.clear(); }
+                        if f["k"] == "Choke" { peers[pj].we_unchoked_client = false; if !peers[pj].rude { peers[pj].pending.clear(); } }
                     }
                     push(&mut peers[pj], &bytes);
                 }
@@ -532,6 +535,10 @@ async fn run_scenario(sc: Value, run: std::path::PathBuf, panics: std::sync::Arc
                     react(&mut peers, &t, &info_hash).await;
                 }
                 emit("Awaited", format!("\"announces\":{},\"waited_ms\":{}", http::urls().len(), waited));
+            }
+            "delay_replies" => {
+                // the next `count` replies of the manager reach their connection task `ms` ms (virtual) later
+                rdest::verif::chan::delay_replies(step["ms"].as_u64().unwrap_or(1), step["count"].as_u64().unwrap_or(1) as usize);
             }
             "rates" => {
                 let g = |k: &str| step[k].as_u64().map(|x| x as u32);
@@ -610,7 +617,7 @@ async fn react(peers: &mut Vec<Peer>, t: &Torrent, info_hash: &[u8; 20]) {
                 trace::emit("net", &format!("\"ev\":\"Closed\",\"peer\":\"{}\"", peers[pi].label));
             }
             // auto responder: an honest (or deliberately corrupting) seeder answers requests
-            if peers[pi].auto_serve != "none" && peers[pi].we_unchoked_client && peers[pi].stream.is_some() {
+            if peers[pi].auto_serve != "none" && (peers[pi].we_unchoked_client || peers[pi].rude) && peers[pi].stream.is_some() {
                 while peers[pi].pending.len() > peers[pi].hold {
                     let (i, b, l) = if peers[pi].lifo { peers[pi].pending.pop_back().unwrap() } else { peers[pi].pending.pop_front().unwrap() };
                     if i >= t.npieces || !peers[pi].has[i] || l > 16384 || t.block(i, b, l).is_none() {
